@@ -46,7 +46,7 @@ def run(run):
     for r, n in (("C10.R1", 1), ("C10.R2", 1), ("C10.R3", 1), ("C10.R4", 1), ("C10.R5", 3), ("C10.R6", 2)):
         run.floor(r, n)
     project = run.project
-    f = project.fn(P + ".PyramidIO.update_image")
+    f = common.as_generator_cm(project, project.fn(P + ".PyramidIO.update_image"))      # (a hand-written context-manager class is read as the generator it replaces)
     run.note_func(f)
     ev = sym.make_evaluator(project, P, [], no_inline=("tile_path", "read_image", "write_image", "update_image"))
     ev.self_class = P + ".PyramidIO"        # private path helpers of PyramidIO are part of update_image
@@ -289,7 +289,7 @@ def _r2_r3(run, f, r, ev=None):
 def lock_key_term(project):
     """(lock path term of PyramidIO.update_image expressed over its own parameters, position symbol, constructor event) --
     also when the lock is taken through a context-manager helper or the path is built by a private helper method."""
-    f = project.fn(P + ".PyramidIO.update_image")
+    f = common.as_generator_cm(project, project.fn(P + ".PyramidIO.update_image"))
     ev = sym.make_evaluator(project, P, [], no_inline=("tile_path", "read_image", "write_image", "update_image"))
     ev.self_class = P + ".PyramidIO"
     r = ev.run(f.node)
